@@ -491,6 +491,20 @@ func (rs *rootSet) walk(v ssa.Value, depth int) {
 			case *ssa.FieldAddr, *ssa.IndexAddr:
 				rs.add(x) // heap/aggregate load: origin, but also expose the base
 				rs.walk(a, depth+1)
+				// an element of a slice made in this function: what was stored into its elements
+				if ia, ok := a.(*ssa.IndexAddr); ok {
+					if ms, ok := stripConv(ia.X).(*ssa.MakeSlice); ok {
+						for _, ref := range *ms.Referrers() {
+							if ia2, ok := ref.(*ssa.IndexAddr); ok {
+								for _, r2 := range *ia2.Referrers() {
+									if st, ok := r2.(*ssa.Store); ok && st.Addr == ssa.Value(ia2) {
+										rs.walk(st.Val, depth+1)
+									}
+								}
+							}
+						}
+					}
+				}
 			default:
 				rs.add(x)
 				rs.walk(x.X, depth+1)
